@@ -270,7 +270,10 @@ class SourceToSourceFileImportsTransformation(SourceToSourceTransformationBase):
             # already contains __future__ import(s).  If there are no existing
             # import blocks containing __future__, don't return any result
             # here, so that we will add a new one at the top.
-            if not annotated_blocks[-1][0][0] > 0:
+            # (A plain "import __future__" shares the prefix but is no
+            # compiler directive: it may follow other code.)
+            if not any(oimp.split.module_name == '__future__'
+                       for oimp in annotated_blocks[-1][1].importset.imports):
                 raise NoImportBlockError
         return annotated_blocks[-1][1]
 
